@@ -432,9 +432,24 @@ impl World for C19 {
                 // slices a quick run can afford must not all land on the same component
                 let round = index / (ncases * UNIFORMITY_ARMS);
                 let turn = (round * 2 + (arm - 7) + index % ncases) as usize;
-                // HWB: whiteness alone cannot be pinned (it is not a coordinate of the shape); blackness can (v = 1 - b)
-                let pinnable: Vec<usize> = (0..c.n).filter(|j| c.kinds[*j] != Kind::HwbW).collect();
+                // HWB: blackness can be pinned (v = 1 - b). The equivalent saturation can be pinned exactly only at its two
+                // ends — the gray axis (w = 1 - b) and the surface of the cone (w = 0) —, with blackness on a dyadic grid
+                // so that 1 - b is exact in f32; in between, rounding of (1 - s) v leaves the two ends a few ulps apart
+                let pinnable: Vec<usize> = (0..c.n).collect();
                 let j = pinnable[turn % pinnable.len()];
+                if c.kinds[j] == Kind::HwbW {
+                    let jb = j + 1;
+                    let snap = |b: f64| ((b * 64.0).round() / 64.0).min(0.875);
+                    lo[jb] = rt(c, snap(lo[jb]));
+                    hi[jb] = rt(c, snap(hi[jb]));
+                    if (turn / pinnable.len()) % 2 == 0 {
+                        lo[j] = rt(c, 1.0 - lo[jb]);
+                        hi[j] = rt(c, 1.0 - hi[jb]);
+                    } else {
+                        lo[j] = 0.0;
+                        hi[j] = 0.0;
+                    }
+                } else
                 if (turn / pinnable.len()) % 2 == 1 && !is_hwb {
                     // the usual request around a slice: everything else over its whole nominal range
                     for k in 0..c.n {
@@ -444,7 +459,9 @@ impl World for C19 {
                         }
                     }
                 }
-                if c.kinds[j] == Kind::HwbB {
+                if c.kinds[j] == Kind::HwbW {
+                    // done above
+                } else if c.kinds[j] == Kind::HwbB {
                     // both ends get the low end's blackness; the high end keeps its saturation
                     let jw = j - 1;
                     let (s1, _) = hsv_of_hwb(hi[jw], hi[j]);
